@@ -30,7 +30,7 @@ class Adapter(EnvAdapter):
 
     # ---- configurations -------------------------------------------------------------------
     def configs(self, tier):
-        pols = ["solve", "masked", "collide", "random", "mostly_masked", "solve"]
+        pols = ["solve", "crowd", "masked", "collide", "random", "mostly_masked"]
 
         def c(id, n, e, d, a, k, t, episodes, max_steps, **kw):
             dd = dict(id=id, ctor=dict(num_nodes=n, num_edges=e, max_degree=d, num_agents=a,
@@ -100,16 +100,19 @@ class Adapter(EnvAdapter):
         """joint actions in which every agent adjacent to a common enterable node picks it"""
         adj, vis, types, pos, todo = self._view(state)
         na, n = vis.shape
+        fin = [all(vis[ag, v] for v in todo[ag]) for ag in range(na)]
+        openn = [self._open_nodes(state, ag) for ag in range(na)]
         out = []
         for v in range(n):
-            movers = [ag for ag in range(na) if adj[pos[ag], v] and self._open_nodes(state, ag)[v]]
-            if len(movers) >= 2:
+            movers = [ag for ag in range(na) if adj[pos[ag], v] and openn[ag][v]]
+            if sum(1 for ag in movers if not fin[ag]) >= 2:
                 act = base().copy()
                 for ag in movers:
                     act[ag] = v
-                out.append(act)
+                out.append((v, act))
         rng.shuffle(out)
-        return out
+        out.sort(key=lambda va: 0 if types[va[0]] == -1 else 1)      # contested utility nodes first
+        return [act for v, act in out]
 
     # ---- probes ---------------------------------------------------------------------------
     def probe_sample(self, env, state, obs, rng, k):
@@ -129,10 +132,10 @@ class Adapter(EnvAdapter):
                 act = rnd() if others_random else stay()
                 act[ag] = v
                 acts.append(act)
-        if len(acts) > k - 4:                      # keep a uniform sample of them, all agents represented
-            idx = np.sort(rng.choice(len(acts), size=max(1, k - 4), replace=False))
+        if len(acts) > k - 5:                      # keep a uniform sample of them, all agents represented
+            idx = np.sort(rng.choice(len(acts), size=max(1, k - 5), replace=False))
             acts = [acts[j] for j in idx]
-        acts.extend(self._collision_actions(env, state, rng, stay)[:2])
+        acts.extend(self._collision_actions(env, state, rng, stay)[:3])
         acts.extend(self._collision_actions(env, state, rng, rnd)[:2])
         while len(acts) < k:
             acts.append(rnd())
@@ -142,14 +145,42 @@ class Adapter(EnvAdapter):
     def choose(self, policy, env, state, obs, rng, i):
         if policy == "solve":
             return self._solve(env, state, obs, rng)
-        if policy == "collide":
-            masked = lambda: np.asarray(self.masked_action(env, state, obs, rng))
-            if rng.random() < 0.6:
+        if policy in ("collide", "crowd"):
+            masked = (lambda: np.asarray(self.masked_action(env, state, obs, rng))) if policy == "collide" \
+                else (lambda: self._chase(env, state, obs, rng))
+            if rng.random() < (0.6 if policy == "collide" else 0.8):
                 col = self._collision_actions(env, state, rng, masked)
                 if col:
                     return col[0].astype(env.action_spec.dtype)
-            return super().choose("masked", env, state, obs, rng, i)
+            return masked().astype(env.action_spec.dtype)
         return super().choose(policy, env, state, obs, rng, i)
+
+    def _chase(self, env, state, obs, rng):
+        """Every agent takes the allowed node closest to the next agent's position (the agents crowd together,
+        which makes picks of a common node - the tie-break - frequent)."""
+        adj, vis, types, pos, todo = self._view(state)
+        mask = np.asarray(obs.action_mask)
+        na, n = vis.shape
+        act = np.zeros(na, dtype=env.action_spec.dtype)
+        for ag in range(na):
+            allowed = np.flatnonzero(mask[ag])
+            if len(allowed) == 0:
+                continue
+            goal = int(pos[(ag + 1) % na])
+            dist = {goal: 0}
+            front = [goal]
+            while front:
+                nxt = []
+                for u in front:
+                    for w in np.flatnonzero(adj[u]):
+                        if int(w) not in dist:
+                            dist[int(w)] = dist[u] + 1
+                            nxt.append(int(w))
+                front = nxt
+            best = min(dist.get(int(v), n) for v in allowed)
+            cands = [int(v) for v in allowed if dist.get(int(v), n) <= best + (1 if rng.random() < 0.3 else 0)]
+            act[ag] = rng.choice(cands)
+        return act
 
     def _solve(self, env, state, obs, rng):
         """Each unfinished agent walks (breadth first) towards its nearest unconnected node, inside its own
